@@ -244,6 +244,28 @@ def _analyse(ctx):
     return {"fn": name, "adt": adt, "variant": variant, "rows": rows, "outs": outs, "L": L, "sites": sites, "units": units}
 
 
+def absent_variants(ctx):
+    """refinement ABS: the variants the parser can answer with when its header argument is None (proven on the parser's own
+    rows: every such path returns, never loops); None when that cannot be established"""
+    A = analyse(ctx)
+    body = ctx.facts.bodies[A["fn"]]
+    hp = [i for i in range(1, body["arg_count"] + 1) if body["locals"][i]["s"].startswith("std::option::Option<&") and "HeaderValue" in body["locals"][i]["s"]]
+    if len(hp) != 1:
+        return None
+    p = ("param", hp[0])
+    out = set()
+    n = 0
+    for row in A["rows"]:
+        o = row["o"]
+        if o.cons.variant_of(p) != "None":
+            continue
+        n += 1
+        if row["kind"] != "return" or value_variant(row["value"]) is None:
+            return None
+        out.add(value_variant(row["value"]))
+    return out if n else None
+
+
 def value_variant(v):
     if is_agg(v):
         return v[3]
